@@ -6,7 +6,7 @@ import desper
 from hypothesis import strategies as st
 
 from vlib.core import PropertyViolation
-from vlib.classes import build_dag
+from vlib.classes import build_dag, EqByMode, EV_EQ
 from vlib import worldops
 
 ID = 'C07'
@@ -36,7 +36,7 @@ DEFAULTS = [None, None, 0, 1, -1, 2, 5]
 P_ADD, P_REMOVE = 1, 2
 
 
-class ProcRec(desper.Processor):
+class ProcRec(EqByMode, desper.Processor):
     _log = None
     ix = -1
 
@@ -57,8 +57,9 @@ class ProcRec(desper.Processor):
 
 
 def decode_class(p):
-    ev = (0, 0, P_ADD | P_REMOVE, P_ADD, P_REMOVE)[p % 5]
-    p //= 5
+    # EV_EQ: processors with value semantics - equal-but-distinct instances of different classes
+    ev = (0, 0, P_ADD | P_REMOVE, P_ADD, P_REMOVE, EV_EQ, EV_EQ | P_ADD | P_REMOVE)[p % 7]
+    p //= 7
     default = DEFAULTS[p % len(DEFAULTS)]
     p //= len(DEFAULTS)
     nb = (0, 1, 1, 2)[p % 4]
@@ -86,7 +87,7 @@ def decode_op(t):
 
 
 def strategy():
-    cls = st.integers(0, 5 * len(DEFAULTS) * 4 * 36 - 1).map(decode_class)
+    cls = st.integers(0, 7 * len(DEFAULTS) * 4 * 36 - 1).map(decode_class)
     op = st.tuples(st.integers(0, 9), st.integers(0, 16 ** 4 - 1)).map(decode_op)
     return st.fixed_dictionaries({'classes': st.lists(cls, min_size=3, max_size=6),
                                   'ops': worldops.chunked(op, 40)})
@@ -182,7 +183,7 @@ def run_case(case):
             viol('added_processor_knows_its_world', processor=repr(p), world=repr(p.world))
         owed = []
         for o in old:
-            model.remove(o)
+            model[:] = [m for m in model if m is not o]
             removed_pool.append(o)
             flags['replacement'] += 1
             if frame['open']:
@@ -217,7 +218,7 @@ def run_case(case):
             viol('remove_processor_returns_exact_or_a_match', type=T.__name__, got=repr(r))
         owed = []
         if r is not None:
-            model.remove(r)
+            model[:] = [m for m in model if m is not r]
             removed_pool.append(r)
             flags['remove'] += 1
             if frame['open']:
